@@ -2,7 +2,8 @@
     the option tables are checked by the per-run table extraction, the
     end-to-end behaviour by the correspondence runs). *)
 From Coq Require Import ZArith List Bool.
-From AV Require Import Base.PyList Base.PyFloat Tok.Model Cli.Format Cli.FormatProofs.
+From Coq Require String.
+From AV Require Import Base.PyList Base.PyFloat Tok.Model Cli.Format Cli.FormatProofs Cli.Options Cli.OptionsProofs.
 Import ListNotations.
 Open Scope Z_scope.
 
@@ -42,6 +43,17 @@ Proof. exact FormatProofs.C15_formatter_error_kind. Qed.
 Theorem C15_well_formed_meaning : forall t, well_formed_template t = true <-> every_percent_followed t.
 Proof. exact FormatProofs.well_formed_template_meaning. Qed.
 
+(** option tables: type, default and destination keyword of every option named in the statement,
+    for the short and the long spelling (tables tied to cmdline.py / cmdline_util.py by per-run extraction, CliTie.v) *)
+Theorem C15_table_short : map (fun p => flow options kwargs (fst p)) stated = documented_flow.
+Proof. exact OptionsProofs.C15_table_short. Qed.
+
+Theorem C15_table_long : map (fun p => flow options kwargs (snd p)) stated = documented_flow.
+Proof. exact OptionsProofs.C15_table_long. Qed.
+
+Theorem C15_table_unambiguous : table_ok options kwargs = true.
+Proof. exact OptionsProofs.C15_table_unambiguous. Qed.
+
 Print Assumptions C15_fields.
 Print Assumptions C15_field_widths.
 Print Assumptions C15_digits.
@@ -51,3 +63,6 @@ Print Assumptions C15_template_uses_millis.
 Print Assumptions C15_formatter_ok_iff.
 Print Assumptions C15_formatter_error_kind.
 Print Assumptions C15_well_formed_meaning.
+Print Assumptions C15_table_short.
+Print Assumptions C15_table_long.
+Print Assumptions C15_table_unambiguous.
